@@ -99,12 +99,14 @@ if TYPE_CHECKING:
 
 from . import reflog
 from .errors import (
+    ChecksumMismatch,
     NoIndexPresent,
     NotBlobError,
     NotCommitError,
     NotGitRepository,
     NotTagError,
     NotTreeError,
+    ObjectFormatException,
     RefFormatError,
 )
 from .file import (
@@ -1218,6 +1220,17 @@ class BaseRepo:
             return cached
         return peel_sha(self.object_store, self.refs[ref])[1].id
 
+    def _peel_for_packed_refs(self, sha: ObjectID) -> ObjectID | None:
+        """Peel an object id for the packed-refs writer.
+
+        Returns: The fully peeled id, or None if the object (or one it
+            points at) is missing or unreadable.
+        """
+        try:
+            return peel_sha(self.object_store, sha)[1].id
+        except (KeyError, ChecksumMismatch, ObjectFormatException):
+            return None
+
     @property
     def notes(self) -> "Notes":
         """Access notes functionality for this repository.
@@ -1619,7 +1632,10 @@ class Repo(BaseRepo):
 
         # Initialize refs early so they're available for config condition matchers
         self.refs = DiskRefsContainer(
-            self.commondir(), self._controldir, logger=self._write_reflog
+            self.commondir(),
+            self._controldir,
+            logger=self._write_reflog,
+            peel=self._peel_for_packed_refs,
         )
 
         # Initialize worktrees container
